@@ -31,13 +31,20 @@ Lemma digits8 v : v < two64 ->
       + 256 * ((v / 256 ^ 6) mod 256 + 256 * ((v / 256 ^ 7) mod 256))))))).
 Proof.
   intros H. unfold two64 in H.
-  assert (D : forall k x, x / 256 ^ (k + 1) = (x / 256 ^ k) / 256).
-  { intros k x. rewrite N.pow_add_r, N.pow_1_r. now rewrite N.div_div by (try apply N.pow_nonzero; discriminate). }
-  change 1 with (0 + 1) at 1. change 2 with (1 + 1) at 1. change 3 with (2 + 1) at 1. change 4 with (3 + 1) at 1.
-  change 5 with (4 + 1) at 1. change 6 with (5 + 1) at 1. change 7 with (6 + 1) at 1.
-  rewrite !D. change (256 ^ 0) with 1. rewrite N.div_1_r.
-  assert (Hs : v / 256 / 256 / 256 / 256 / 256 / 256 / 256 / 256 = 0).
-  { apply N.div_small. repeat (apply N.div_lt_upper_bound; [discriminate|]). cbv. cbv in H. exact H. }
+  change (256 ^ 0) with 1. change (256 ^ 1) with 256. change (256 ^ 2) with (256 * 256).
+  change (256 ^ 3) with (256 * 256 * 256). change (256 ^ 4) with (256 * 256 * 256 * 256).
+  change (256 ^ 5) with (256 * 256 * 256 * 256 * 256). change (256 ^ 6) with (256 * 256 * 256 * 256 * 256 * 256).
+  change (256 ^ 7) with (256 * 256 * 256 * 256 * 256 * 256 * 256).
+  rewrite <- !N.div_div by (cbv; discriminate). rewrite N.div_1_r.
+  assert (B1 : v / 256 < 72057594037927936) by (apply N.div_lt_upper_bound; [discriminate|lia]).
+  assert (B2 : v / 256 / 256 < 281474976710656) by (apply N.div_lt_upper_bound; [discriminate|lia]).
+  assert (B3 : v / 256 / 256 / 256 < 1099511627776) by (apply N.div_lt_upper_bound; [discriminate|lia]).
+  assert (B4 : v / 256 / 256 / 256 / 256 < 4294967296) by (apply N.div_lt_upper_bound; [discriminate|lia]).
+  assert (B5 : v / 256 / 256 / 256 / 256 / 256 < 16777216) by (apply N.div_lt_upper_bound; [discriminate|lia]).
+  assert (B6 : v / 256 / 256 / 256 / 256 / 256 / 256 < 65536) by (apply N.div_lt_upper_bound; [discriminate|lia]).
+  assert (B7 : v / 256 / 256 / 256 / 256 / 256 / 256 / 256 < 256) by (apply N.div_lt_upper_bound; [discriminate|lia]).
+  assert (Hs : v / 256 / 256 / 256 / 256 / 256 / 256 / 256 / 256 = 0) by (apply N.div_small; exact B7).
+  clear B1 B2 B3 B4 B5 B6 B7.
   pose proof (N.div_mod v 256 ltac:(discriminate)) as E0. remember (v / 256) as a1.
   pose proof (N.div_mod a1 256 ltac:(discriminate)) as E1. remember (a1 / 256) as a2.
   pose proof (N.div_mod a2 256 ltac:(discriminate)) as E2. remember (a2 / 256) as a3.
@@ -45,13 +52,19 @@ Proof.
   pose proof (N.div_mod a4 256 ltac:(discriminate)) as E4. remember (a4 / 256) as a5.
   pose proof (N.div_mod a5 256 ltac:(discriminate)) as E5. remember (a5 / 256) as a6.
   pose proof (N.div_mod a6 256 ltac:(discriminate)) as E6. remember (a6 / 256) as a7.
-  pose proof (N.div_mod a7 256 ltac:(discriminate)) as E7. lia.
+  pose proof (N.div_mod a7 256 ltac:(discriminate)) as E7. rewrite Hs in E7.
+  clear Heqa1 Heqa2 Heqa3 Heqa4 Heqa5 Heqa6 Heqa7 Hs H.
+  generalize dependent (v mod 256). generalize dependent (a1 mod 256). generalize dependent (a2 mod 256).
+  generalize dependent (a3 mod 256). generalize dependent (a4 mod 256). generalize dependent (a5 mod 256).
+  generalize dependent (a6 mod 256). generalize dependent (a7 mod 256). intros. lia.
 Qed.
 
 Lemma rd8_wr8_same f p v : v < two64 -> rd8 (wr8 f p v) p = v.
 Proof.
-  intros H. unfold rd8. rewrite <- (N.add_0_r p) at 1.
-  rewrite !wr8_in by lia. symmetry. now apply digits8.
+  intros H. unfold rd8.
+  assert (E0 : wr8 f p v p = (v / 256 ^ 0) mod 256).
+  { rewrite <- (wr8_in f p v 0) by lia. now rewrite N.add_0_r. }
+  rewrite E0. rewrite !wr8_in by lia. symmetry. now apply digits8.
 Qed.
 Lemma rd8_wr8_other f p v q : q + 8 <= p \/ p + 8 <= q -> rd8 (wr8 f p v) q = rd8 f q.
 Proof. intros H. apply rd8_ext. intros i Hi. apply wr8_out. lia. Qed.
@@ -62,8 +75,8 @@ Proof.
 Qed.
 Lemma rd8_zero f p : (forall i, i < 8 -> f (p + i) = 0) -> rd8 f p = 0.
 Proof.
-  intros H. unfold rd8. rewrite <- (N.add_0_r p) at 1.
-  rewrite (H 0), (H 1), (H 2), (H 3), (H 4), (H 5), (H 6), (H 7) by lia. reflexivity.
+  intros H. unfold rd8. pose proof (H 0 ltac:(lia)) as H0. rewrite N.add_0_r in H0. rewrite H0.
+  rewrite (H 1), (H 2), (H 3), (H 4), (H 5), (H 6), (H 7) by lia. reflexivity.
 Qed.
 
 (* headers *)
